@@ -198,6 +198,10 @@ func GenChildTpl(c *vs.Case, resource string, selLabels map[string]string, clust
 	}
 	tpl.Fields = GenChildFields(c, resource)
 	tpl.EchoAnnotations = c.Prob(1, 6)
+	if c.Prob(1, 5) {
+		// the hook puts annotations of its own on the child
+		tpl.Annotations = map[string]string{"note": "from-hook"}
+	}
 	return tpl
 }
 
